@@ -66,6 +66,7 @@ type tCall struct {
 	rescue     bool          // granted, but not by the server: charged to the local bucket
 	excused    bool          // (rescue) the instance had a reason to be cut off
 	stale      time.Duration // how far `now` lies before an earlier call of the instance
+	trouble    string        // tWorld.trouble when the call returned
 }
 
 type tWorld struct {
@@ -78,9 +79,12 @@ type tWorld struct {
 	instOfTask  map[int]*tInst
 	states      []bstate
 	maxArg      int64
-	regress     bool // a request carried a `now` older than one executed before it
-	staleSeen   bool // a request was executed in a later second than the `now` it carried
-	ttlErr      bool // a script failed with "invalid expire time"
+	regress     bool   // a request carried a `now` older than one executed before it, bucket keys alive
+	staleSeen   bool   // a request was executed in a later second than the `now` it carried
+	lateOnExp   bool   // a late / older-`now` request met expired bucket keys
+	trouble     string // the latest of the two events above, as a class suffix
+	diverged    bool   // the server already made a decision no consistent bucket state explains
+	ttlErr      bool   // a script failed with "invalid expire time"
 	scriptErr   bool
 	expiry      time.Time // when the bucket keys expire (from the TTL the server set)
 	expired     bool      // the bucket expired at least once before an execution
@@ -103,16 +107,14 @@ func (w *tWorld) bypassCause(def string) string {
 }
 
 // cause names the scenario class of an over-grant from what was observed in this history.
-func (w *tWorld) cause(def string) string {
+func (w *tWorld) cause(trouble, def string) string {
 	switch {
 	case w.ttlErr:
 		return "ttl-zero"
 	case w.scriptErr:
 		return "script-error"
-	case w.regress:
-		return "now-regressed"
-	case w.expired && w.staleSeen:
-		return "stale-now-after-ttl-expiry"
+	case trouble != "":
+		return trouble // the latest of: `now` ran backwards on live keys / late request met expired keys
 	}
 	return def
 }
@@ -183,9 +185,20 @@ func (w *tWorld) onExec(e *simredis.Exec) {
 		s = a
 	}
 	w.nExec++
+	expiredNow := false
+	if !w.expiry.IsZero() && !now.Before(w.expiry) {
+		expiredNow, w.expired = true, true
+		r.Probe("token-ttl-expired-bucket")
+	}
 	if a < w.maxArg {
-		w.regress = true
 		r.Probe("token-now-regressed-at-server")
+		if expiredNow {
+			w.lateOnExp, w.trouble = true, "stale-now-after-ttl-expiry"
+		} else if !w.lateOnExp {
+			// (once a stale request has met an expired bucket the history stays in that scenario
+			// class: its old second is what later requests are measured against)
+			w.regress, w.trouble = true, "now-regressed"
+		}
 	}
 	if a > w.maxArg {
 		w.maxArg = a
@@ -193,11 +206,10 @@ func (w *tWorld) onExec(e *simredis.Exec) {
 	if s > a {
 		w.staleSeen = true
 		r.Probe("token-stale-now-at-server")
-	}
-	expiredNow := false
-	if !w.expiry.IsZero() && !now.Before(w.expiry) {
-		expiredNow, w.expired = true, true
-		r.Probe("token-ttl-expired-bucket")
+		if expiredNow {
+			w.lateOnExp, w.trouble = true, "stale-now-after-ttl-expiry"
+			r.Probe("token-stale-now-met-expired-bucket")
+		}
 	}
 	// all states consistent with this decision
 	lo, hi := a, s
@@ -239,19 +251,23 @@ func (w *tWorld) onExec(e *simredis.Exec) {
 		// name the scenario class from what was observed so far in this history
 		sub := "exact-bucket"
 		switch {
-		case w.regress:
-			sub = "now-regressed"
-		case w.expired && w.staleSeen:
-			sub = "stale-now-after-ttl-expiry"
+		case w.trouble != "":
+			sub = w.trouble // the latest of: `now` ran backwards on live keys / late request met expired keys
 		case w.expired:
 			sub = "ttl-expired"
 		case w.staleSeen:
 			sub = "stale-now"
 		}
-		if granted {
+		// only the first disagreement of a run is judged: afterwards the model merely
+		// follows the server and is no authority any more
+		first := !w.diverged
+		w.diverged = true
+		if !first {
+			r.Probe("token-model-followed-server")
+		} else if granted {
 			w.note(1, "token-overgrant-store-reachable/"+sub, "rate %d burst %d: the server granted n=%d (now=%d, executed in second %d) although the joint bucket holds less in every consistent history; bucket states (tokens,last) before: %v",
 				w.rate, w.burst, n, a, s, w.states)
-		} else if !w.regress && !(w.expired && w.staleSeen) {
+		} else if !w.regress && !w.lateOnExp {
 			// (after the bucket clock was seen running backwards, or a late request met an
 			// expired bucket, the server's later grants are judged, but the model no longer
 			// claims to know that tokens MUST be there)
@@ -341,6 +357,7 @@ func (w *tWorld) finish(c *tCall) {
 	r := w.r
 	in := c.in
 	c.end = time.Now()
+	c.trouble = w.trouble
 	w.calls = append(w.calls, c)
 	in.calls = append(in.calls, c)
 	if c.now.Before(in.maxNow) {
@@ -501,7 +518,7 @@ func (w *tWorld) checkGlobal() {
 						hist = append(hist, fmt.Sprintf("i%d n=%d@%s(%s)", g.in.id, g.n, g.start.Format("05.000"), src))
 					}
 				}
-				w.note(1, "token-overgrant-store-reachable/"+w.cause("joint-bound"),
+				w.note(1, "token-overgrant-store-reachable/"+w.cause(c.trouble, "joint-bound"),
 					"rate %d burst %d, %d instances on one key: %d tokens granted between %s and %s (%d whole seconds apart), the joint bound is burst + rate x elapsed = %.0f (%d instances excused by faults); per instance %v; grants: %s",
 					w.rate, w.burst, len(w.insts), sum, t1.Format("15:04:05.000"), t2.Format("15:04:05.000"), t2.Unix()-t1.Unix(), bound, len(exc), perInst, strings.Join(hist, " "))
 				return
